@@ -443,6 +443,12 @@ class World:
     def do_close(self, stream) -> None:
         pipe = stream.pipe
         op = self._rec("close", pipe, layer=stream.layer, already=pipe.client_closed)
+        if stream.layer == 0 and len(pipe.tls) >= 1 and not pipe.client_closed:
+            # the plain-TCP stream object after a successful TLS upgrade: with the synchronous backend the socket has been handed over to the
+            # SSLSocket (socket.detach()), so closing the old object closes nothing - the strictest of the three real backends is the model
+            op["superseded"] = True
+            self._done(op)
+            return
         self._close_pipe(pipe)
         self._done(op)
 
